@@ -69,7 +69,8 @@ OBLIGATIONS = [
     "SkVerif.C14.interpolate_array_cells_rejected_witness",
     "SkVerif.C14.ffill_eq_spec",
     "SkVerif.C14.bfill_eq_spec",
-    "SkVerif.C14.impute_ffill_bfill_eq_spec",
+    "SkVerif.C14.impute_ffill_eq_spec",
+    "SkVerif.C14.impute_bfill_eq_spec",
     "SkVerif.C14.impute_constant_eq_spec",
     "SkVerif.C14.impute_mean_eq_spec",
     "SkVerif.C14.impute_median_eq_spec",
@@ -1316,7 +1317,7 @@ def acf_gen(tier, rng):
         if rng.random() < 0.05:
             z = [z[0]] * n
         cases.append({"op": "acf", "z": z, "adjusted": rng.random() < 0.4,
-                      "n_lags": rng.choice([None, rng.randrange(0, n), rng.randrange(0, n), n + 3]), "i0": rng.choice([0, 5])})
+                      "n_lags": rng.choice([None, rng.randrange(0, n), rng.randrange(0, n), rng.randrange(0, n), n + 3, -rng.randrange(1, n + 3)]), "i0": rng.choice([0, 5])})
     cases.append({"op": "acf", "z": [], "adjusted": False, "n_lags": 2, "i0": 0})
     return cases
 
